@@ -440,10 +440,828 @@ def locate(src):
         for n in ast.walk(st):
             if isinstance(n, ast.Name) and n.id == "TZID": raise Untranslatable("_parse_date_value: TZID used outside the attach statement")
     if len(attach) != 1: raise Untranslatable("_parse_date_value: expected one `if TZID is not None:` statement")
-    return {"prefix": prefix, "parms": parms, "attach": attach, "rfc_args": [a.arg for a in rfc.args.args], "pdv_args": [a.arg for a in pdv.args.args]}
+    disp = None
+    try:
+        els = rfc.body[k + 1].orelse
+        disp = next(st for st in els if isinstance(st, ast.For))
+    except Exception:
+        pass
+    return {"dispatch": disp, "pdv": pdv, "prefix": prefix, "parms": parms, "attach": attach, "rfc_args": [a.arg for a in rfc.args.args], "pdv_args": [a.arg for a in pdv.args.args]}
 
 def strip_docstring(body):
     return body[1:] if body and isinstance(body[0], ast.Expr) and isinstance(body[0].value, ast.Constant) and isinstance(body[0].value.value, str) else body
+
+# ---------------------------------------------------------------------------------------------------------------------
+# rrule.__str__  ->  Gen.rruleStr : RRuleStr.StrIn -> List Char
+#
+# The method is straight-line code over lists that only grow (`output`, `parts`, `wday_strings`): every statement is matched
+# against the statement shapes below and every expression is translated; anything else is Untranslatable.
+#   self._dtstart / self._until   Option (y, m, d, hh, mm, ss)     truth value = present
+#   self._freq / _interval / _wkst / _count                        Nat / Int / Int / Option Int
+#   self._original_rule           the recorded BY arguments (RRuleStr.RArgs); byweekday holds weekday objects (weekday, n)
+#   calendar.firstweekday()       x.fwd
+#   '<lit>%04d' % e, e.strftime('<%m %d %H %M %S and literals>'), str(e), repr(weekday)[0:2], '{n:+d}{wday}'.format(...),
+#   '{name}={vals}'.format(...), ','.join(str(v) for v in value), FREQNAMES[e], lit + e, sep.join(list)
+
+STR_KEYS = {"bysetpos": "IntList", "bymonth": "IntList", "bymonthday": "IntList", "byyearday": "IntList", "byeaster": "IntList",
+            "byweekno": "IntList", "byweekday": "WDayList", "byhour": "IntList", "byminute": "IntList", "bysecond": "IntList"}
+SELF_ATTRS = {"_dtstart": ("x.dtstart", "OptSix"), "_until": ("x.untilV", "OptSix"), "_freq": ("x.freq", "Nat"),
+              "_interval": ("x.interval", "Int"), "_wkst": ("x.wkst", "Int"), "_count": ("x.count", "OptInt")}
+SIX = ["year", "month", "day", "hour", "minute", "second"]
+STRF = {"Y": ("RRuleStr.pad 4", 0), "m": ("RRuleStr.pad 2", 1), "d": ("RRuleStr.pad 2", 2), "H": ("RRuleStr.pad 2", 3),
+        "M": ("RRuleStr.pad 2", 4), "S": ("RRuleStr.pad 2", 5)}
+
+def mlit(v):
+    """a string literal of `__str__`: `RRuleStr.lit "…"` when it is plain printable text (the model is written that way), else a character list"""
+    if len(v) > 1 and all(32 <= ord(c) < 127 and c not in '"\\' for c in v):
+        return '(RRuleStr.lit "%s")' % v
+    return lean_str(v)
+
+class StrMethod:
+    def __init__(self):
+        self.env = {}        # python name -> (lean expr, type)
+        self.lines = []      # `let` lines
+        self.n = 0
+
+    def bind(self, name, expr, ty):
+        self.n += 1
+        v = "%s%d" % (name.replace("_", ""), self.n)
+        self.lines.append("let %s := %s" % (v, expr))
+        self.env[name] = (v, ty)
+
+    def is_self(self, e, attr=None):
+        return isinstance(e, ast.Attribute) and isinstance(e.value, ast.Name) and e.value.id == "self" and (attr is None or e.attr == attr)
+
+    # ---- expressions of type Str / Int / lists
+    def ex(self, e):
+        if isinstance(e, ast.Constant) and isinstance(e.value, str):
+            return mlit(e.value), "Str"
+        if isinstance(e, ast.Constant) and isinstance(e.value, int) and not isinstance(e.value, bool):
+            return "(%d : Int)" % e.value, "Int"
+        if isinstance(e, ast.Name):
+            if e.id not in self.env: raise Untranslatable("__str__: name %s" % e.id)
+            return self.env[e.id]
+        if self.is_self(e) and e.attr in SELF_ATTRS:
+            return SELF_ATTRS[e.attr]
+        if isinstance(e, ast.Attribute) and e.attr in SIX:
+            b, t = self.ex(e.value)
+            if t != "Six": raise Untranslatable("__str__: .%s of %s" % (e.attr, t))
+            return "(RRuleStr.sixGet %s %d)" % (b, SIX.index(e.attr)), "Nat"
+        if isinstance(e, ast.Attribute) and e.attr == "n":
+            b, t = self.ex(e.value)
+            if t != "WDay": raise Untranslatable("__str__: .n of %s" % t)
+            return "%s.2" % b, "OptInt"
+        if isinstance(e, ast.BinOp) and isinstance(e.op, ast.Add):
+            l, lt = self.ex(e.left); r, rt = self.ex(e.right)
+            if lt == rt == "Str": return "(%s ++ %s)" % (l, r), "Str"
+            raise Untranslatable("__str__: + on %s, %s" % (lt, rt))
+        if isinstance(e, ast.BinOp) and isinstance(e.op, ast.Mod) and isinstance(e.left, ast.Constant) and isinstance(e.left.value, str):
+            fmt = e.left.value
+            if not fmt.endswith("%04d") or "%" in fmt[:-4]: raise Untranslatable("__str__: format %r" % fmt)
+            r, rt = self.ex(e.right)
+            if rt != "Nat": raise Untranslatable("__str__: %%04d of %s" % rt)
+            return "(%s ++ RRuleStr.pad 4 %s)" % (mlit(fmt[:-4]), r), "Str"
+        if isinstance(e, ast.Subscript):
+            if isinstance(e.value, ast.Name) and e.value.id == "FREQNAMES":
+                i, it = self.ex(e.slice)
+                if it != "Nat": raise Untranslatable("__str__: FREQNAMES index")
+                return "((Gen.FREQNAMES.getD %s \"\").toList)" % i, "Str"
+            if isinstance(e.slice, ast.Slice) and isinstance(e.slice.lower, ast.Constant) and e.slice.lower.value == 0 \
+               and isinstance(e.slice.upper, ast.Constant) and isinstance(e.slice.upper.value, int) and e.slice.step is None:
+                b, t = self.ex(e.value)
+                if t != "Str": raise Untranslatable("__str__: slice of %s" % t)
+                return "(List.take %d %s)" % (e.slice.upper.value, b), "Str"
+            if isinstance(e.value, ast.Name) and e.value.id == "original_rule" and isinstance(e.slice, ast.Constant) and e.slice.value in STR_KEYS:
+                return self.env["original_rule." + e.slice.value]
+            raise Untranslatable("__str__: subscript")
+        if isinstance(e, ast.Call):
+            f = e.func
+            if isinstance(f, ast.Name) and f.id == "str" and len(e.args) == 1:
+                b, t = self.ex(e.args[0])
+                if t == "Int": return "(RRuleStr.showInt %s)" % b, "Str"
+                if t == "Str": return b, "Str"
+                raise Untranslatable("__str__: str() of %s" % t)
+            if isinstance(f, ast.Name) and f.id == "repr" and len(e.args) == 1:
+                a = e.args[0]
+                if isinstance(a, ast.Call) and isinstance(a.func, ast.Name) and a.func.id == "weekday" and len(a.args) == 1:
+                    b, t = self.ex(a.args[0])
+                    if t != "Int": raise Untranslatable("__str__: weekday(%s)" % t)
+                    return "(RRuleStr.weekdayRepr (%s, none))" % b, "Str"
+                b, t = self.ex(a)
+                if t != "WDay": raise Untranslatable("__str__: repr of %s" % t)
+                return "(RRuleStr.weekdayRepr %s)" % b, "Str"
+            if isinstance(f, ast.Attribute) and f.attr == "strftime" and len(e.args) == 1 and isinstance(e.args[0], ast.Constant):
+                b, t = self.ex(f.value)
+                if t != "Six": raise Untranslatable("__str__: strftime of %s" % t)
+                fmt, out, k = e.args[0].value, [], 0
+                while k < len(fmt):
+                    if fmt[k] == "%":
+                        if k + 1 >= len(fmt) or fmt[k + 1] not in STRF: raise Untranslatable("__str__: strftime directive in %r" % fmt)
+                        fn, idx = STRF[fmt[k + 1]]
+                        out.append("%s (RRuleStr.sixGet %s %d)" % (fn, b, idx)); k += 2
+                    else:
+                        out.append(lean_str(fmt[k])); k += 1
+                return "(" + " ++ ".join(out) + ")", "Str"
+            if isinstance(f, ast.Attribute) and f.attr == "format" and isinstance(f.value, (ast.Constant, ast.Name)) and not e.args:
+                fmt = f.value.value if isinstance(f.value, ast.Constant) else self.env.get(f.value.id, (None, None))[0]
+                if isinstance(f.value, ast.Name) and self.env.get(f.value.id, (None, None))[1] != "FmtLit": raise Untranslatable("__str__: format receiver")
+                kws = {k.arg: k.value for k in e.keywords}
+                import re as _re
+                out, pos = [], 0
+                for m in _re.finditer(r"\{(\w+)(:\+d)?\}", fmt):
+                    if m.start() > pos: out.append(mlit(fmt[pos:m.start()]))
+                    if m.group(1) not in kws: raise Untranslatable("__str__: format field %s" % m.group(1))
+                    b, t = self.ex(kws[m.group(1)])
+                    if m.group(2):
+                        if t != "Int": raise Untranslatable("__str__: {:+d} of %s" % t)
+                        out.append("RRuleStr.showIntSigned %s" % b)
+                    else:
+                        if t != "Str": raise Untranslatable("__str__: {} of %s" % t)
+                        out.append(b)
+                    pos = m.end()
+                if "{" in fmt[pos:] or "}" in fmt[pos:]: raise Untranslatable("__str__: format string %r" % fmt)
+                if pos < len(fmt): out.append(mlit(fmt[pos:]))
+                return "(" + " ++ ".join(out) + ")", "Str"
+            if isinstance(f, ast.Attribute) and f.attr == "join" and isinstance(f.value, ast.Constant) and isinstance(f.value.value, str) and len(e.args) == 1:
+                a = e.args[0]
+                if isinstance(a, ast.GeneratorExp) and len(a.generators) == 1 and not a.generators[0].ifs and isinstance(a.generators[0].target, ast.Name):
+                    lst, lt = self.ex(a.generators[0].iter)
+                    if lt not in ("IntListV", "StrListV"): raise Untranslatable("__str__: join over %s" % lt)
+                    v = a.generators[0].target.id
+                    saved = self.env.get(v)
+                    self.env[v] = (v, "Int" if lt == "IntListV" else "Str")
+                    b, t = self.ex(a.elt)
+                    if saved is None: del self.env[v]
+                    else: self.env[v] = saved
+                    if t != "Str": raise Untranslatable("__str__: join element")
+                    return "(RRuleStr.intercalate %s (%s.map (fun %s => %s)))" % (lean_str(f.value.value), lst, v, b), "Str"
+                lst, lt = self.ex(a)
+                if lt != "StrListV": raise Untranslatable("__str__: join of %s" % lt)
+                return "(RRuleStr.intercalate %s %s)" % (lean_str(f.value.value), lst), "Str"
+            if isinstance(f, ast.Attribute) and f.attr == "firstweekday" and isinstance(f.value, ast.Name) and f.value.id == "calendar" and not e.args:
+                return "x.fwd", "Int"
+        raise Untranslatable("__str__: expression %s" % ast.dump(e)[:100])
+
+    def cond(self, e):
+        """(kind, payload): ('bool', lean) or ('some', optexpr, boundname, boundtype)"""
+        if isinstance(e, ast.BoolOp) and isinstance(e.op, ast.Or):
+            parts = [self.cond(v) for v in e.values]
+            if any(p[0] != "bool" for p in parts): raise Untranslatable("__str__: or over optional values")
+            return ("bool", "(" + " || ".join(p[1] for p in parts) + ")")
+        if isinstance(e, ast.Compare) and len(e.ops) == 1:
+            if isinstance(e.ops[0], ast.IsNot) and isinstance(e.comparators[0], ast.Constant) and e.comparators[0].value is None:
+                b, t = self.ex(e.left)
+                if t == "OptInt": return ("some", b, "Int")
+                raise Untranslatable("__str__: is not None on %s" % t)
+            if isinstance(e.ops[0], ast.NotEq):
+                l, lt = self.ex(e.left); r, rt = self.ex(e.comparators[0])
+                if lt == rt == "Int": return ("bool", "(%s != %s)" % (l, r))
+            raise Untranslatable("__str__: comparison")
+        b, t = self.ex(e)
+        if t == "Int": return ("bool", "(%s != 0)" % b)
+        if t == "OptSix": return ("some", b, "Six")
+        if t == "OptInt": return ("someNZ", b, "Int")
+        raise Untranslatable("__str__: truth value of %s" % t)
+
+    def append_stmt(self, st):
+        """`L.append(e)` -> (L, e-expr)"""
+        if isinstance(st, ast.Expr) and isinstance(st.value, ast.Call) and isinstance(st.value.func, ast.Attribute) and st.value.func.attr == "append" \
+           and isinstance(st.value.func.value, ast.Name) and len(st.value.args) == 1:
+            return st.value.func.value.id, st.value.args[0]
+        return None
+
+    def guarded_appends(self, st, narrow):
+        """an `if` whose arms only append to lists (and assign dead names); returns {list: lean list expr} per arm"""
+        c = self.cond(st.test)
+        saved = dict(self.env)
+        def arm(stmts, positive):
+            out = {}
+            if positive and c[0] in ("some", "someNZ") and narrow is not None:
+                self.env[narrow[0]] = (narrow[1], c[2])
+            for s2 in stmts:
+                ap = self.append_stmt(s2)
+                if ap:
+                    b, t = self.ex(ap[1])
+                    if t != "Str": raise Untranslatable("__str__: append of %s" % t)
+                    out.setdefault(ap[0], []).append(b); continue
+                if isinstance(s2, ast.Assign) and all(isinstance(n, ast.Name) and n.id in ("h", "m", "s") for tg in s2.targets
+                                                      for n in (tg.elts if isinstance(tg, ast.Tuple) else [tg])):
+                    continue      # h, m, s: never read
+                raise Untranslatable("__str__: statement in a conditional arm: %s" % type(s2).__name__)
+            self.env = dict(saved)
+            return out
+        return c, arm
+
+    def run(self, fn):
+        body = strip_docstring(fn.body)
+        for st in body:
+            # L = [] / L = [e]
+            if isinstance(st, ast.Assign) and len(st.targets) == 1 and isinstance(st.targets[0], ast.Name) and isinstance(st.value, ast.List):
+                items = []
+                for it in st.value.elts:
+                    b, t = self.ex(it)
+                    if t != "Str": raise Untranslatable("__str__: list element")
+                    items.append(b)
+                self.bind(st.targets[0].id, "([%s] : List StrPy.Str)" % ", ".join(items), "StrListV"); continue
+            # h, m, s = [None] * 3   (never read)
+            if isinstance(st, ast.Assign) and len(st.targets) == 1 and isinstance(st.targets[0], ast.Tuple) \
+               and all(isinstance(n, ast.Name) and n.id in ("h", "m", "s") for n in st.targets[0].elts):
+                continue
+            if isinstance(st, ast.Assign) and len(st.targets) == 1 and isinstance(st.targets[0], ast.Name) and isinstance(st.value, ast.Constant) \
+               and isinstance(st.value.value, str):
+                self.env[st.targets[0].id] = (st.value.value, "FmtLit"); continue
+            ap = self.append_stmt(st)
+            if ap:
+                lst, lt = self.env.get(ap[0], (None, None))
+                if lt != "StrListV": raise Untranslatable("__str__: append to %s" % ap[0])
+                b, t = self.ex(ap[1])
+                self.bind(ap[0], "%s ++ [%s]" % (lst, b), "StrListV"); continue
+            if isinstance(st, ast.If) and self.is_byweekday_block(st):
+                self.byweekday_block(st); continue
+            if isinstance(st, ast.If):
+                # which object does the test narrow? `if self._x:` / `if self._x is not None:` -> self._x inside the arm
+                tgt = st.test.left if isinstance(st.test, ast.Compare) else st.test
+                narrow = None
+                if self.is_self(tgt) and tgt.attr in SELF_ATTRS and SELF_ATTRS[tgt.attr][1] in ("OptSix", "OptInt"):
+                    narrow = ("self." + tgt.attr, "v")
+                c, arm = self.guarded_appends(st, narrow)
+                if narrow:
+                    saved_attr = SELF_ATTRS[tgt.attr]
+                    SELF_ATTRS[tgt.attr] = ("v", c[2]) if c[0] in ("some", "someNZ") else saved_attr
+                    try: pos = arm(st.body, True)
+                    finally: SELF_ATTRS[tgt.attr] = saved_attr
+                else:
+                    pos = arm(st.body, True)
+                neg = arm(st.orelse, False)
+                for lname in sorted(set(pos) | set(neg)):
+                    lst, lt = self.env.get(lname, (None, None))
+                    if lt != "StrListV": raise Untranslatable("__str__: append to %s" % lname)
+                    P = "[" + ", ".join(pos.get(lname, [])) + "]"; N = "[" + ", ".join(neg.get(lname, [])) + "]"
+                    if c[0] == "bool": e = "(if %s then %s else %s)" % (c[1], P, N)
+                    elif c[0] == "some": e = "(match %s with | some v => %s | none => %s)" % (c[1], P, N)
+                    else: e = "(match %s with | some v => if v != 0 then %s else %s | none => %s)" % (c[1], P, N, N)
+                    self.bind(lname, "%s ++ %s" % (lst, e), "StrListV")
+                continue
+            if isinstance(st, ast.For) and isinstance(st.iter, ast.List) and isinstance(st.target, ast.Tuple) and len(st.target.elts) == 2:
+                self.by_loop(st); continue
+            if isinstance(st, ast.Return):
+                b, t = self.ex(st.value)
+                if t != "Str": raise Untranslatable("__str__: return of %s" % t)
+                self.lines.append(b); return
+            raise Untranslatable("__str__: statement %s" % type(st).__name__)
+        raise Untranslatable("__str__: no return")
+
+    def is_byweekday_block(self, st):
+        t = st.test
+        return isinstance(t, ast.Compare) and isinstance(t.left, ast.Call) and isinstance(t.left.func, ast.Attribute) and t.left.func.attr == "get" \
+            and self.is_self(t.left.func.value, "_original_rule") and isinstance(t.ops[0], ast.IsNot)
+
+    def byweekday_block(self, st):
+        key = st.test.left.args[0].value
+        if STR_KEYS.get(key) != "WDayList": raise Untranslatable("__str__: conversion block for %s" % key)
+        b = st.body
+        ok = (len(b) == 4 and isinstance(b[0], ast.Assign) and isinstance(b[0].value, ast.Call) and isinstance(b[0].value.func, ast.Name)
+              and b[0].value.func.id == "dict" and self.is_self(b[0].value.args[0], "_original_rule") and b[0].targets[0].id == "original_rule"
+              and isinstance(b[1], ast.Assign) and isinstance(b[1].value, ast.List) and not b[1].value.elts
+              and isinstance(b[2], ast.For) and isinstance(b[2].target, ast.Name) and isinstance(b[2].iter, ast.Subscript)
+              and isinstance(b[2].iter.value, ast.Name) and b[2].iter.value.id == "original_rule" and b[2].iter.slice.value == key
+              and len(b[2].body) == 1 and isinstance(b[2].body[0], ast.If)
+              and isinstance(b[3], ast.Assign) and isinstance(b[3].targets[0], ast.Subscript) and b[3].targets[0].slice.value == key
+              and isinstance(b[3].value, ast.Name) and b[3].value.id == b[1].targets[0].id
+              and len(st.orelse) == 1 and isinstance(st.orelse[0], ast.Assign) and st.orelse[0].targets[0].id == "original_rule"
+              and self.is_self(st.orelse[0].value, "_original_rule"))
+        if not ok: raise Untranslatable("__str__: shape of the byweekday conversion block")
+        lname, var, inner = b[1].targets[0].id, b[2].target.id, b[2].body[0]
+        self.env[var] = (var, "WDay")
+        tgt = inner.test
+        if not (isinstance(tgt, ast.Attribute) and tgt.attr == "n" and isinstance(tgt.value, ast.Name) and tgt.value.id == var):
+            raise Untranslatable("__str__: test in the weekday loop")
+        def one(stmts, narrowed):
+            if len(stmts) != 1: raise Untranslatable("__str__: weekday loop arm")
+            ap = self.append_stmt(stmts[0])
+            if not ap or ap[0] != lname: raise Untranslatable("__str__: weekday loop arm")
+            if narrowed:
+                # wday.n is the integer n inside the arm
+                class Sub(ast.NodeTransformer):
+                    def visit_Attribute(s2, node):
+                        if node.attr == "n" and isinstance(node.value, ast.Name) and node.value.id == var: return ast.Name(id="n__", ctx=ast.Load())
+                        return s2.generic_visit(node)
+                e2 = Sub().visit(ast.parse(ast.unparse(ap[1]), mode="eval").body)
+                self.env["n__"] = ("n", "Int")
+                b_, t_ = self.ex(e2); del self.env["n__"]
+            else:
+                b_, t_ = self.ex(ap[1])
+            if t_ != "Str": raise Untranslatable("__str__: weekday loop element")
+            return b_
+        A = one(inner.body, True); B = one(inner.orelse, False)
+        del self.env[var]
+        self.aux = ("/-- translated from `rrule.py:rrule.__str__`: the element the `for wday in original_rule['byweekday']:` loop appends -/\n"
+                    "def rruleStrWday (%s : RRuleStr.WDay) : StrPy.Str :=\n  match %s.2 with\n  | some n => if n != 0 then %s else %s\n  | none => %s\n" % (var, var, A, B, B))
+        conv = "rruleStrWday"
+        self.n += 1
+        v = "wdaystrings%d" % self.n
+        self.lines.append("let %s : Option (List StrPy.Str) := x.orig.byweekday.map (fun l => l.map %s)" % (v, conv))
+        for k, ty in STR_KEYS.items():
+            self.env["original_rule." + k] = (v, "OptStrList") if k == key else ("x.orig.%s" % k, "OptIntList")
+
+    def by_loop(self, st):
+        names = [n.id for n in st.target.elts]
+        if len(st.body) != 2: raise Untranslatable("__str__: BY loop body")
+        a, iff = st.body
+        if not (isinstance(a, ast.Assign) and isinstance(a.value, ast.Call) and isinstance(a.value.func, ast.Attribute) and a.value.func.attr == "get"
+                and isinstance(a.value.func.value, ast.Name) and a.value.func.value.id == "original_rule"
+                and isinstance(a.value.args[0], ast.Name) and a.value.args[0].id == names[1]
+                and isinstance(iff, ast.If) and isinstance(iff.test, ast.Name) and iff.test.id == a.targets[0].id and not iff.orelse
+                and len(iff.body) == 1):
+            raise Untranslatable("__str__: BY loop shape")
+        val = a.targets[0].id
+        ap = self.append_stmt(iff.body[0])
+        if not ap: raise Untranslatable("__str__: BY loop append")
+        for pair in st.iter.elts:
+            if not (isinstance(pair, ast.Tuple) and len(pair.elts) == 2 and all(isinstance(c, ast.Constant) and isinstance(c.value, str) for c in pair.elts)):
+                raise Untranslatable("__str__: BY loop table")
+            nm, key = pair.elts[0].value, pair.elts[1].value
+            if key not in STR_KEYS: raise Untranslatable("__str__: BY key %s" % key)
+            opt, oty = self.env["original_rule." + key]
+            self.env[names[0]] = (mlit(nm), "Str")
+            self.env[val] = ("l", "IntListV" if oty == "OptIntList" else "StrListV")
+            b, t = self.ex(ap[1])
+            lst, lt = self.env[ap[0]]
+            self.bind(ap[0], "%s ++ (match %s with | some l => if l.isEmpty then [] else [%s] | none => [])" % (lst, opt, b), "StrListV")
+        del self.env[names[0]]; del self.env[val]
+
+def translate_rrule_str(src):
+    tree = ast.parse(open(os.path.join(src, "rrule.py")).read())
+    fn = find_function(tree, "rrule.__str__")
+    m = StrMethod()
+    m.run(fn)
+    body = "\n".join(m.lines)
+    text = getattr(m, "aux", "") + "\n" + ("/-- translated from `rrule.py:rrule.__str__` (whole method); `x` = the attributes it reads (`RRuleStr.StrIn`: `_dtstart`, `_freq`,\n"
+            "    `_interval`, `_wkst`, `_count`, `_until`, `_original_rule`, and `calendar.firstweekday()` as `fwd`) -/\n"
+            "def rruleStr (x : RRuleStr.StrIn) : StrPy.Str :=\n%s\n" % indent(body))
+    return text, {"rrule.__str__": fingerprint([fn])}
+
+# ---------------------------------------------------------------------------------------------------------------------
+# _rrulestr._parse_rfc_rrule and the _handle_* family  ->  Gen.rrsHandle / rrsLineValue / rrsStepPair / rrsParseRule
+#
+# `getattr(self, "_handle_" + name)` is resolved against the CLASS BODY as written: every `def _handle_X` and every alias
+# `_handle_Y = _handle_X` whose name is upper-case after the prefix (the caller upper-cases `name`) becomes one arm of an
+# if-chain in source order; the handler's body is instantiated with that name (`name.lower()` is folded to the keyword).
+# A handler body is ONE assignment `rrkwargs[<key>] = <value>` (after optional lazy imports / `global`), possibly inside
+# `try: … except (ValueError, OverflowError): raise ValueError(…)`.  Values: `int(value)`, `[int(x) for x in value.split(',')]`,
+# `self._freq_map[value]`, `self._weekday_map[value]`, `parser.parse(value, ignoretz=kwargs.get("ignoretz"),
+# tzinfos=kwargs.get("tzinfos"))` (kept as the text and the options: the parse itself is C02).
+# `_handle_BYWEEKDAY` (the `+1MO` / `MO(+1)` splitting loop) is matched statement by statement (translate_byweekday) -> Gen.rrsWDay.
+
+UPDATE_KEYS = {"freq", "interval", "count", "wkst", "until", "bysetpos", "bymonth", "bymonthday", "byyearday", "byeaster",
+               "byweekno", "byweekday", "byhour", "byminute", "bysecond"}
+HAND_MODELLED_HANDLERS = {"_handle_BYWEEKDAY"}
+
+def handler_arm(fn, upname):
+    """Lean expression : Py.R RRuleStr.Update for handler `fn` called with name = upname"""
+    body = [st for st in strip_docstring(fn.body) if not isinstance(st, (ast.Global, ast.Import, ast.ImportFrom))
+            and not (isinstance(st, ast.If) and not st.orelse and all(isinstance(x, (ast.Import, ast.ImportFrom)) for x in st.body))]
+    if len(body) == 1 and isinstance(body[0], ast.Try):
+        t = body[0]
+        ok = (len(t.body) == 1 and not t.orelse and not t.finalbody and len(t.handlers) == 1 and len(t.handlers[0].body) == 1
+              and isinstance(t.handlers[0].body[0], ast.Raise) and isinstance(t.handlers[0].body[0].exc, ast.Call)
+              and getattr(t.handlers[0].body[0].exc.func, "id", None) == "ValueError")
+        if not ok: raise Untranslatable("%s: try shape" % fn.name)
+        body = t.body
+    if len(body) != 1 or not isinstance(body[0], ast.Assign) or not isinstance(body[0].targets[0], ast.Subscript) \
+       or getattr(body[0].targets[0].value, "id", None) != "rrkwargs":
+        raise Untranslatable("%s: body is not one assignment to rrkwargs[...]" % fn.name)
+    k = body[0].targets[0].slice
+    if isinstance(k, ast.Constant) and isinstance(k.value, str): key = k.value
+    elif isinstance(k, ast.Call) and isinstance(k.func, ast.Attribute) and k.func.attr == "lower" and getattr(k.func.value, "id", None) == "name" and not k.args:
+        key = upname.lower()
+    else: raise Untranslatable("%s: key expression" % fn.name)
+    if key not in UPDATE_KEYS: raise Untranslatable("%s: keyword %r" % (fn.name, key))
+    ctor = "untilV" if key == "until" else key
+    v = body[0].value
+    def is_value(n): return isinstance(n, ast.Name) and n.id == "value"
+    if isinstance(v, ast.Call) and getattr(v.func, "id", None) == "int" and len(v.args) == 1 and is_value(v.args[0]):
+        if key not in ("interval", "count"): raise Untranslatable("%s: int value for %s" % (fn.name, key))
+        return "(RRuleStr.int! value) >>= fun v => .ok (.%s v)" % ctor
+    if isinstance(v, ast.ListComp) and len(v.generators) == 1 and not v.generators[0].ifs and isinstance(v.elt, ast.Call) \
+       and getattr(v.elt.func, "id", None) == "int" and getattr(v.elt.args[0], "id", None) == getattr(v.generators[0].target, "id", "?"):
+        it = v.generators[0].iter
+        if not (isinstance(it, ast.Call) and isinstance(it.func, ast.Attribute) and it.func.attr == "split" and is_value(it.func.value)
+                and len(it.args) == 1 and isinstance(it.args[0], ast.Constant) and isinstance(it.args[0].value, str) and len(it.args[0].value) == 1):
+            raise Untranslatable("%s: list comprehension source" % fn.name)
+        if not key.startswith("by") or key == "byweekday": raise Untranslatable("%s: int list for %s" % (fn.name, key))
+        return "((ICal.splitOnChar %s value).mapM RRuleStr.int!) >>= fun l => .ok (.%s l)" % (lean_char(it.args[0].value), ctor)
+    if isinstance(v, ast.Subscript) and isinstance(v.value, ast.Attribute) and getattr(v.value.value, "id", None) == "self" and is_value(v.slice) \
+       and v.value.attr in ("_freq_map", "_weekday_map"):
+        table = {"_freq_map": "Gen.FREQ_MAP", "_weekday_map": "Gen.WEEKDAY_MAP"}[v.value.attr]
+        if key not in ("freq", "wkst"): raise Untranslatable("%s: table value for %s" % (fn.name, key))
+        return "match RRuleStr.lookup (%s.map (fun p => (p.1.toList, p.2))) value with | some k => .ok (.%s k) | none => .error .KeyError" % (table, ctor)
+    if isinstance(v, ast.Call) and isinstance(v.func, ast.Attribute) and v.func.attr == "parse" and getattr(v.func.value, "id", None) == "parser" \
+       and len(v.args) == 1 and is_value(v.args[0]):
+        kws = {k.arg: k.value for k in v.keywords}
+        def kwget(n, nm):
+            return isinstance(n, ast.Call) and isinstance(n.func, ast.Attribute) and n.func.attr == "get" and getattr(n.func.value, "id", None) == "kwargs" \
+                and len(n.args) == 1 and isinstance(n.args[0], ast.Constant) and n.args[0].value == nm
+        if set(kws) != {"ignoretz", "tzinfos"} or not kwget(kws["ignoretz"], "ignoretz") or not kwget(kws["tzinfos"], "tzinfos") or key != "until":
+            raise Untranslatable("%s: parser.parse call" % fn.name)
+        return ".ok (.untilV value po)"
+    raise Untranslatable("%s: value expression" % fn.name)
+
+def translate_byweekday(fn):
+    """`_handle_BYWEEKDAY`: the per-item body of `for wday in value.split(','):` -> Gen.rrsWDay; the method -> an arm of rrsHandle"""
+    def cname(n): return getattr(n, "id", None)
+    b = strip_docstring(fn.body)
+    if not (len(b) == 3 and isinstance(b[0], ast.Assign) and cname(b[0].targets[0]) == "l" and isinstance(b[0].value, ast.List) and not b[0].value.elts
+            and isinstance(b[1], ast.For) and cname(b[1].target) == "wday" and isinstance(b[1].iter, ast.Call) and b[1].iter.func.attr == "split"
+            and cname(b[1].iter.func.value) == "value" and len(b[1].iter.args) == 1 and len(b[1].iter.args[0].value) == 1 and not b[1].orelse
+            and isinstance(b[2], ast.Assign) and isinstance(b[2].targets[0], ast.Subscript) and cname(b[2].targets[0].value) == "rrkwargs"
+            and b[2].targets[0].slice.value == "byweekday" and cname(b[2].value) == "l"):
+        raise Untranslatable("_handle_BYWEEKDAY: method shape")
+    sep = b[1].iter.args[0].value
+    fb = b[1].body
+    if not (len(fb) == 2 and isinstance(fb[0], ast.If)): raise Untranslatable("_handle_BYWEEKDAY: loop body")
+    i1, app = fb
+    # l.append(weekdays[self._weekday_map[w]](n))
+    av = app.value if isinstance(app, ast.Expr) else None
+    if not (isinstance(av, ast.Call) and isinstance(av.func, ast.Attribute) and av.func.attr == "append" and cname(av.func.value) == "l"
+            and isinstance(av.args[0], ast.Call) and [cname(a) for a in av.args[0].args] == ["n"]
+            and isinstance(av.args[0].func, ast.Subscript) and cname(av.args[0].func.value) == "weekdays"
+            and isinstance(av.args[0].func.slice, ast.Subscript) and av.args[0].func.slice.value.attr == "_weekday_map"
+            and cname(av.args[0].func.slice.slice) == "w"):
+        raise Untranslatable("_handle_BYWEEKDAY: append")
+    finish = "RRuleStr.weekdayCall (RRuleStr.lookup (Gen.WEEKDAY_MAP.map (fun p => (p.1.toList, p.2))) w) n"
+    # arm 1: if '(' in wday: splt = wday.split('('); w = splt[0]; n = int(splt[1][:-1])
+    t = i1.test
+    if not (isinstance(t, ast.Compare) and isinstance(t.ops[0], ast.In) and isinstance(t.left, ast.Constant) and len(t.left.value) == 1 and cname(t.comparators[0]) == "wday"):
+        raise Untranslatable("_handle_BYWEEKDAY: first test")
+    par = t.left.value
+    a = i1.body
+    ok1 = (len(a) == 3 and cname(a[0].targets[0]) == "splt" and a[0].value.func.attr == "split" and cname(a[0].value.func.value) == "wday"
+           and len(a[0].value.args) == 1 and a[0].value.args[0].value == par
+           and cname(a[1].targets[0]) == "w" and isinstance(a[1].value, ast.Subscript) and cname(a[1].value.value) == "splt" and a[1].value.slice.value == 0
+           and cname(a[2].targets[0]) == "n" and cname(a[2].value.func) == "int" and isinstance(a[2].value.args[0], ast.Subscript)
+           and isinstance(a[2].value.args[0].slice, ast.Slice) and a[2].value.args[0].slice.lower is None
+           and isinstance(a[2].value.args[0].slice.upper, ast.UnaryOp) and a[2].value.args[0].slice.upper.operand.value == 1
+           and isinstance(a[2].value.args[0].value, ast.Subscript) and cname(a[2].value.args[0].value.value) == "splt" and a[2].value.args[0].value.slice.value == 1)
+    if not ok1: raise Untranslatable("_handle_BYWEEKDAY: parenthesis arm")
+    # arm 2: elif len(wday): for i in range(len(wday)): if wday[i] not in '<chars>': break ; n = wday[:i] or None ; w = wday[i:] ; if n: n = int(n)
+    if not (len(i1.orelse) == 1 and isinstance(i1.orelse[0], ast.If)): raise Untranslatable("_handle_BYWEEKDAY: elif")
+    i2 = i1.orelse[0]
+    c = i2.body
+    ok2 = (isinstance(i2.test, ast.Call) and cname(i2.test.func) == "len" and cname(i2.test.args[0]) == "wday" and len(c) == 4
+           and isinstance(c[0], ast.For) and cname(c[0].target) == "i" and not c[0].orelse and isinstance(c[0].iter, ast.Call) and cname(c[0].iter.func) == "range"
+           and len(c[0].iter.args) == 1 and cname(c[0].iter.args[0].func) == "len" and cname(c[0].iter.args[0].args[0]) == "wday"
+           and len(c[0].body) == 1 and isinstance(c[0].body[0], ast.If) and not c[0].body[0].orelse and len(c[0].body[0].body) == 1
+           and isinstance(c[0].body[0].body[0], ast.Break) and isinstance(c[0].body[0].test, ast.Compare) and isinstance(c[0].body[0].test.ops[0], ast.NotIn)
+           and isinstance(c[0].body[0].test.left, ast.Subscript) and cname(c[0].body[0].test.left.value) == "wday" and cname(c[0].body[0].test.left.slice) == "i"
+           and isinstance(c[0].body[0].test.comparators[0], ast.Constant) and isinstance(c[0].body[0].test.comparators[0].value, str)
+           and cname(c[1].targets[0]) == "n" and isinstance(c[1].value, ast.BoolOp) and isinstance(c[1].value.op, ast.Or)
+           and isinstance(c[1].value.values[0], ast.Subscript) and cname(c[1].value.values[0].value) == "wday"
+           and c[1].value.values[0].slice.lower is None and cname(c[1].value.values[0].slice.upper) == "i"
+           and isinstance(c[1].value.values[1], ast.Constant) and c[1].value.values[1].value is None
+           and cname(c[2].targets[0]) == "w" and isinstance(c[2].value, ast.Subscript) and cname(c[2].value.value) == "wday"
+           and cname(c[2].value.slice.lower) == "i" and c[2].value.slice.upper is None
+           and isinstance(c[3], ast.If) and cname(c[3].test) == "n" and not c[3].orelse and len(c[3].body) == 1
+           and cname(c[3].body[0].targets[0]) == "n" and cname(c[3].body[0].value.func) == "int" and cname(c[3].body[0].value.args[0]) == "n")
+    if not ok2: raise Untranslatable("_handle_BYWEEKDAY: prefix arm")
+    chars = c[0].body[0].test.comparators[0].value
+    # arm 3: else: raise ValueError
+    if not (len(i2.orelse) == 1 and isinstance(i2.orelse[0], ast.Raise) and cname(i2.orelse[0].exc.func) in ("ValueError", "KeyError")):
+        raise Untranslatable("_handle_BYWEEKDAY: else arm")
+    text = ("/-- translated from `_rrulestr._handle_BYWEEKDAY`: the body of `for wday in value.split('%s'):` — `WD(n)` / `nWD` / `WD` split into the\n"
+            "    weekday name and the ordinal, then `weekdays[self._weekday_map[w]](n)` -/\n"
+            "def rrsWDay (wday : StrPy.Str) : Py.R RRuleStr.WDay :=\n"
+            "  if wday.contains %s then\n"
+            "    let splt := ICal.splitOnChar %s wday\n"
+            "    (StrPy.getL splt 0) >>= fun w =>\n"
+            "    (StrPy.getL splt 1) >>= fun s1 =>\n"
+            "    (RRuleStr.int! s1.dropLast) >>= fun v =>\n"
+            "    let n : Option Int := some v\n"
+            "    %s\n"
+            "  else if wday.length != 0 then\n"
+            "    let i := StrPy.forBreakIdx (fun c => %s.contains c) wday 0\n"
+            "    let n0 := wday.take i\n"
+            "    let w := wday.drop i\n"
+            "    (if n0.isEmpty then (.ok none : Py.R (Option Int)) else (RRuleStr.int! n0) >>= fun v => .ok (some v)) >>= fun n =>\n"
+            "    %s\n"
+            "  else .error .%s\n" % (sep, lean_char(par), lean_char(par), finish, lean_str(chars), finish, i2.orelse[0].exc.func.id))
+    arm = "((ICal.splitOnChar %s value).mapM rrsWDay) >>= fun l => .ok (.byweekday l)" % lean_char(sep)
+    return text, arm
+
+def translate_rule_parser(src):
+    tree = ast.parse(open(os.path.join(src, "rrule.py")).read())
+    cls = find_function(tree, "_rrulestr")
+    defs, arms, fps = {}, [], {}
+    for st in cls.body:
+        if isinstance(st, ast.FunctionDef) and st.name.startswith("_handle_"):
+            defs[st.name] = st
+            if st.name[8:].isupper(): arms.append((st.name[8:], st.name))
+        elif isinstance(st, ast.Assign) and len(st.targets) == 1 and isinstance(st.targets[0], ast.Name) and st.targets[0].id.startswith("_handle_"):
+            if not (isinstance(st.value, ast.Name) and st.value.id in defs): raise Untranslatable("alias %s" % st.targets[0].id)
+            defs[st.targets[0].id] = defs[st.value.id]
+            if st.targets[0].id[8:].isupper(): arms.append((st.targets[0].id[8:], st.value.id))
+    chain, pre = [], []
+    for up, target in arms:
+        fn = defs[target]
+        if fn.name == "_handle_BYWEEKDAY":
+            wtext, arm = translate_byweekday(fn)
+            if not pre: pre.append(wtext)
+            fps["_rrulestr." + fn.name] = fingerprint([fn])
+        else:
+            arm = handler_arm(fn, up)
+            fps["_rrulestr." + fn.name] = fingerprint([fn])
+        chain.append('if name == RRuleStr.lit "%s" then %s' % (up, arm))
+    out = pre + ["/-- translated from `rrule.py:_rrulestr`: `getattr(self, \"_handle_\" + name)(rrkwargs, name, value, ignoretz=…, tzinfos=…)` resolved\n"
+           "    against the class body (every `_handle_X` definition and alias, in source order) as the assignment it makes; `po` = the\n"
+           "    `ignoretz` / `tzinfos` keyword arguments; an unknown name is AttributeError -/\n"
+           "def rrsHandle (po : RRuleStr.ParseOpts) (name value : StrPy.Str) : Py.R RRuleStr.Update :=\n  "
+           + "\n  else ".join(chain) + "\n  else .error .AttributeError\n"]
+    # _parse_rfc_rrule
+    fn = find_function(cls, "_parse_rfc_rrule")
+    b = strip_docstring(fn.body)
+    def cname(n): return getattr(n, "id", None)
+    ok = len(b) == 5 and isinstance(b[0], ast.If) and isinstance(b[1], ast.Assign) and isinstance(b[2], ast.For) and isinstance(b[3], ast.If) and isinstance(b[4], ast.Return)
+    if not ok: raise Untranslatable("_parse_rfc_rrule: statement list")
+    # 1. the optional `RRULE:` head
+    i0 = b[0]
+    t = i0.test
+    if not (isinstance(t, ast.Compare) and isinstance(t.left, ast.Call) and t.left.func.attr == "find" and cname(t.left.func.value) == "line"
+            and isinstance(t.ops[0], ast.NotEq) and isinstance(t.comparators[0], ast.UnaryOp) and t.comparators[0].operand.value == 1
+            and len(i0.body) == 2 and isinstance(i0.body[0], ast.Assign) and isinstance(i0.body[0].targets[0], ast.Tuple)
+            and [cname(e) for e in i0.body[0].targets[0].elts] == ["name", "value"]
+            and isinstance(i0.body[0].value, ast.Call) and i0.body[0].value.func.attr == "split" and cname(i0.body[0].value.func.value) == "line"
+            and len(i0.body[0].value.args) == 1 and not i0.body[0].value.keywords
+            and i0.body[0].value.args[0].value == t.left.args[0].value and len(t.left.args[0].value) == 1
+            and isinstance(i0.body[1], ast.If) and isinstance(i0.body[1].test, ast.Compare) and cname(i0.body[1].test.left) == "name"
+            and isinstance(i0.body[1].test.ops[0], ast.NotEq) and isinstance(i0.body[1].body[0], ast.Raise) and not i0.body[1].orelse
+            and len(i0.orelse) == 1 and cname(i0.orelse[0].targets[0]) == "value" and cname(i0.orelse[0].value) == "line"):
+        raise Untranslatable("_parse_rfc_rrule: head")
+    sep = t.left.args[0].value
+    pname = i0.body[1].test.comparators[0].value
+    exc0 = i0.body[1].body[0].exc.func.id
+    out.append("/-- translated from `_rrulestr._parse_rfc_rrule`: the optional `%s%s` head (`name, value = line.split('%s')` unpacks exactly two parts) -/\n"
+               "def rrsLineValue (line : StrPy.Str) : Py.R StrPy.Str :=\n"
+               "  if line.contains %s then\n    match ICal.splitOnChar %s line with\n    | [name, value] => if name != RRuleStr.lit \"%s\" then .error .%s else .ok value\n"
+               "    | _ => .error .ValueError\n  else .ok line\n" % (pname, sep, sep, lean_char(sep), lean_char(sep), pname, exc0))
+    # 2. rrkwargs = {}
+    if not (cname(b[1].targets[0]) == "rrkwargs" and isinstance(b[1].value, ast.Dict) and not b[1].value.keys): raise Untranslatable("_parse_rfc_rrule: rrkwargs")
+    # 3. the loop over the parts
+    f = b[2]
+    fb = f.body
+    if not (cname(f.target) == "pair" and isinstance(f.iter, ast.Call) and f.iter.func.attr == "split" and cname(f.iter.func.value) == "value"
+            and len(fb) == 4 and isinstance(fb[0].targets[0], ast.Tuple) and [cname(e) for e in fb[0].targets[0].elts] == ["name", "value"]
+            and fb[0].value.func.attr == "split" and cname(fb[0].value.func.value) == "pair" and len(fb[0].value.args) == 1 and len(f.iter.args) == 1
+            and not fb[0].value.keywords and not f.iter.keywords
+            and all(isinstance(fb[k], ast.Assign) and cname(fb[k].targets[0]) == nm and fb[k].value.func.attr == "upper" and cname(fb[k].value.func.value) == nm
+                    for k, nm in ((1, "name"), (2, "value")))
+            and isinstance(fb[3], ast.Try) and len(fb[3].body) == 1 and not fb[3].orelse and not fb[3].finalbody):
+        raise Untranslatable("_parse_rfc_rrule: loop body")
+    psep, esep = f.iter.args[0].value, fb[0].value.args[0].value
+    call = fb[3].body[0].value
+    g = call.func
+    if not (isinstance(g, ast.Call) and cname(g.func) == "getattr" and cname(g.args[0]) == "self" and isinstance(g.args[1], ast.BinOp)
+            and g.args[1].left.value == "_handle_" and cname(g.args[1].right) == "name" and [cname(a) for a in call.args] == ["rrkwargs", "name", "value"]
+            and {k.arg: cname(k.value) for k in call.keywords} == {"ignoretz": "ignoretz", "tzinfos": "tzinfos"}):
+        raise Untranslatable("_parse_rfc_rrule: handler call")
+    arms2 = []
+    for h in fb[3].handlers:
+        kinds = [cname(h.type)] if isinstance(h.type, ast.Name) else [cname(e) for e in h.type.elts]
+        if not (len(h.body) == 1 and isinstance(h.body[0], ast.Raise) and isinstance(h.body[0].exc, ast.Call)): raise Untranslatable("_parse_rfc_rrule: handler")
+        for kd in kinds: arms2.append("    | .error .%s => .error .%s" % (kd, h.body[0].exc.func.id))
+    out.append("/-- translated from `_rrulestr._parse_rfc_rrule`: the body of `for pair in value.split('%s'):` — `name, value = pair.split('%s')`,\n"
+               "    both upper-cased, the handler call, and the exception mapping of the `try` statement (other kinds propagate) -/\n"
+               "def rrsStepPair (po : RRuleStr.ParseOpts) (a : RRuleStr.RArgs) (pair : StrPy.Str) : Py.R RRuleStr.RArgs :=\n"
+               "  match ICal.splitOnChar %s pair with\n  | [name, value] =>\n    match rrsHandle po (ICal.upper name) (ICal.upper value) with\n    | .ok u => .ok (u.apply a)\n%s\n    | .error e => .error e\n"
+               "  | _ => .error .ValueError\n" % (psep, esep, lean_char(esep), "\n".join(arms2)))
+    # 4. FREQ is required   5. return rrule(dtstart=dtstart, cache=cache, **rrkwargs)
+    t4 = b[3].test
+    if not (isinstance(t4, ast.Compare) and isinstance(t4.ops[0], ast.NotIn) and t4.left.value == "freq" and cname(t4.comparators[0]) == "rrkwargs"
+            and isinstance(b[3].body[0], ast.Raise) and not b[3].orelse):
+        raise Untranslatable("_parse_rfc_rrule: freq check")
+    r = b[4].value
+    if not (isinstance(r, ast.Call) and cname(r.func) == "rrule" and not r.args
+            and sorted((k.arg or "**", cname(k.value)) for k in r.keywords) == [("**", "rrkwargs"), ("cache", "cache"), ("dtstart", "dtstart")]):
+        raise Untranslatable("_parse_rfc_rrule: return")
+    out.append("/-- translated from `_rrulestr._parse_rfc_rrule` (whole method): the keyword arguments handed to `rrule(dtstart=dtstart, cache=cache, **rrkwargs)` -/\n"
+               "def rrsParseRule (po : RRuleStr.ParseOpts) (line : StrPy.Str) : Py.R RRuleStr.RArgs :=\n"
+               "  (rrsLineValue line) >>= fun value =>\n  ((ICal.splitOnChar %s value).foldlM (rrsStepPair po) {}) >>= fun rrkwargs =>\n"
+               "  if rrkwargs.freq.isNone then .error .%s else .ok rrkwargs\n" % (lean_char(psep), b[3].body[0].exc.func.id))
+    fps["_rrulestr._parse_rfc_rrule"] = fingerprint([fn])
+    # __call__: a pure delegation to _parse_rfc
+    fn = find_function(cls, "__call__")
+    cb = strip_docstring(fn.body)
+    rv = cb[0].value if len(cb) == 1 and isinstance(cb[0], ast.Return) else None
+    if not (isinstance(rv, ast.Call) and isinstance(rv.func, ast.Attribute) and rv.func.attr == "_parse_rfc" and cname(rv.func.value) == "self"
+            and [cname(a) for a in rv.args] == ["s"] and [(k.arg, cname(k.value)) for k in rv.keywords] == [(None, "kwargs")]
+            and [a.arg for a in fn.args.args] == ["self", "s"] and fn.args.kwarg is not None and fn.args.kwarg.arg == "kwargs"
+            and not fn.args.vararg and not fn.args.kwonlyargs and not fn.args.defaults):
+        raise Untranslatable("_rrulestr.__call__ is not `return self._parse_rfc(s, **kwargs)`")
+    out.append("/-- translated from `_rrulestr.__call__` (whole method): `return self._parse_rfc(s, **kwargs)` — the text and every keyword\n"
+               "    argument handed on unchanged, nothing else done -/\n"
+               "def rrsCall (s : StrPy.Str) (o : RRuleStr.Opts) (dtstartKw : Bool) : Py.R RRuleStr.Parsed :=\n  rrsParseRfc s o dtstartKw\n")
+    fps["_rrulestr.__call__"] = fingerprint([fn])
+    return "\n".join(out), fps
+
+# ---------------------------------------------------------------------------------------------------------------------
+# _rrulestr._parse_rfc: the LINE DISPATCH LOOP (`for line in lines:` in the multi-line branch)  ->  Gen.rrsStepLine
+#
+# The loop body is matched statement by statement; the property names, the accepted RDATE parameter, the separators and
+# the exception kinds are taken from the source.  The collected lists are the fields of `RRuleStr.Acc` of the same names.
+# A call `self._parse_date_value(value, parms, TZID_NAMES, ignoretz, tzids, tzinfos)` is represented by its parameter check
+# (`dateParmsOk parms`) and one record `(text, parms, options)` per `,`-separated value — what `Gen.rrsParseDateValue` yields
+# for values read as naive datetimes (obligation gen_parse_date_value_naive); `dtstart = dtvals[0]` after `len(dtvals) != 1`
+# is the record of the whole value.
+
+def translate_dispatch(rfc, k):
+    def cname(n): return getattr(n, "id", None)
+    rest = rfc.body[k + 1:]
+    if not (len(rest) == 1 and isinstance(rest[0], ast.If) and isinstance(rest[0].body[0], ast.Return)): raise Untranslatable("_parse_rfc: after the unfold block")
+    els = rest[0].orelse
+    inits = [cname(st.targets[0]) for st in els[:4] if isinstance(st, ast.Assign) and isinstance(st.value, ast.List) and not st.value.elts]
+    if inits != ["rrulevals", "rdatevals", "exrulevals", "exdatevals"] or not isinstance(els[4], ast.For): raise Untranslatable("_parse_rfc: list initialisation")
+    f = els[4]
+    b = f.body
+    if not (cname(f.target) == "line" and cname(f.iter) == "lines" and not f.orelse and len(b) == 7): raise Untranslatable("_parse_rfc: dispatch loop")
+    # 0. if not line: continue
+    if not (isinstance(b[0], ast.If) and isinstance(b[0].test, ast.UnaryOp) and cname(b[0].test.operand) == "line" and isinstance(b[0].body[0], ast.Continue) and not b[0].orelse):
+        raise Untranslatable("_parse_rfc: empty-line test")
+    # 1. if line.find(':') == -1: name = "RRULE"; value = line  else: name, value = line.split(':', 1)
+    i1 = b[1]
+    t = i1.test
+    if not (isinstance(i1, ast.If) and isinstance(t, ast.Compare) and t.left.func.attr == "find" and cname(t.left.func.value) == "line" and isinstance(t.ops[0], ast.Eq)
+            and isinstance(t.comparators[0], ast.UnaryOp) and t.comparators[0].operand.value == 1 and len(t.left.args[0].value) == 1
+            and len(i1.body) == 2 and cname(i1.body[0].targets[0]) == "name" and isinstance(i1.body[0].value, ast.Constant)
+            and cname(i1.body[1].targets[0]) == "value" and cname(i1.body[1].value) == "line"
+            and len(i1.orelse) == 1 and [cname(e) for e in i1.orelse[0].targets[0].elts] == ["name", "value"]
+            and i1.orelse[0].value.func.attr == "split" and cname(i1.orelse[0].value.func.value) == "line"
+            and [a.value for a in i1.orelse[0].value.args] == [t.left.args[0].value, 1]):
+        raise Untranslatable("_parse_rfc: name/value split")
+    colon, dflt = t.left.args[0].value, i1.body[0].value.value
+    if colon != ":": raise Untranslatable("_parse_rfc: separator %r (ICal.splitColon1 splits at ':')" % colon)
+    # 2-5. parms = name.split(';'); if not parms: raise; name = parms[0]; parms = parms[1:]
+    if not (cname(b[2].targets[0]) == "parms" and b[2].value.func.attr == "split" and cname(b[2].value.func.value) == "name" and len(b[2].value.args) == 1
+            and isinstance(b[3], ast.If) and isinstance(b[3].test, ast.UnaryOp) and cname(b[3].test.operand) == "parms" and isinstance(b[3].body[0], ast.Raise)
+            and cname(b[4].targets[0]) == "name" and cname(b[4].value.value) == "parms" and b[4].value.slice.value == 0
+            and cname(b[5].targets[0]) == "parms" and cname(b[5].value.value) == "parms" and b[5].value.slice.lower.value == 1 and b[5].value.slice.upper is None):
+        raise Untranslatable("_parse_rfc: parameter split")
+    semi = b[2].value.args[0].value
+    exc3 = b[3].body[0].exc.func.id
+    # 6. the if/elif chain on the property name
+    def pdv_call(n):
+        return (isinstance(n, ast.Call) and isinstance(n.func, ast.Attribute) and n.func.attr == "_parse_date_value" and cname(n.func.value) == "self"
+                and [cname(a) for a in n.args] == ["value", "parms", "TZID_NAMES", "ignoretz", "tzids", "tzinfos"] and not n.keywords)
+    def raise_kind(st):
+        return st.exc.func.id if isinstance(st, ast.Raise) and isinstance(st.exc, ast.Call) else None
+    arms, node = [], b[6]
+    while True:
+        if not (isinstance(node, ast.If) and isinstance(node.test, ast.Compare) and cname(node.test.left) == "name" and isinstance(node.test.ops[0], ast.Eq)
+                and isinstance(node.test.comparators[0], ast.Constant)):
+            raise Untranslatable("_parse_rfc: dispatch chain")
+        prop, body = node.test.comparators[0].value, node.body
+        if len(body) == 2 and isinstance(body[0], ast.For) and cname(body[0].target) == "parm" and cname(body[0].iter) == "parms" \
+           and isinstance(body[1], ast.Expr) and body[1].value.func.attr == "append" and [cname(a) for a in body[1].value.args] == ["value"]:
+            lst = cname(body[1].value.func.value)
+            fb = body[0].body
+            if len(fb) == 1 and raise_kind(fb[0]):
+                arm = "if !parms.isEmpty then .error .%s else .ok { acc with %s := acc.%s ++ [value] }" % (raise_kind(fb[0]), lst, lst)
+            elif len(fb) == 1 and isinstance(fb[0], ast.If) and isinstance(fb[0].test, ast.Compare) and cname(fb[0].test.left) == "parm" \
+                 and isinstance(fb[0].test.ops[0], ast.NotEq) and raise_kind(fb[0].body[0]) and not fb[0].orelse:
+                arm = "if parms.any (· != RRuleStr.lit \"%s\") then .error .%s else .ok { acc with %s := acc.%s ++ [value] }" % (
+                    fb[0].test.comparators[0].value, raise_kind(fb[0].body[0]), lst, lst)
+            else: raise Untranslatable("_parse_rfc: parameter loop of %s" % prop)
+        elif len(body) == 1 and isinstance(body[0], ast.Expr) and isinstance(body[0].value, ast.Call) and body[0].value.func.attr == "extend" and pdv_call(body[0].value.args[0]):
+            lst = cname(body[0].value.func.value)
+            arm = "do\n      let _ ← RRuleStr.dateParmsOk parms\n      .ok { acc with %s := acc.%s ++ (ICal.splitOnChar ',' value).map (fun d => (d, parms, po)) }" % (lst, lst)
+        elif len(body) == 3 and cname(body[0].targets[0]) == "dtvals" and pdv_call(body[0].value) and isinstance(body[1], ast.If) \
+             and isinstance(body[1].test, ast.Compare) and cname(body[1].test.left.func) == "len" and cname(body[1].test.left.args[0]) == "dtvals" \
+             and isinstance(body[1].test.ops[0], ast.NotEq) and body[1].test.comparators[0].value == 1 and raise_kind(body[1].body[0]) \
+             and cname(body[2].targets[0]) == "dtstart" and cname(body[2].value.value) == "dtvals" and body[2].value.slice.value == 0:
+            arm = ("do\n      let _ ← RRuleStr.dateParmsOk parms\n      if (ICal.splitOnChar ',' value).length != 1 then .error .%s\n"
+                   "      else .ok { acc with dtstart := some (value, parms, po) }" % raise_kind(body[1].body[0]))
+        else: raise Untranslatable("_parse_rfc: arm of %s" % prop)
+        arms.append((prop, arm))
+        if len(node.orelse) == 1 and isinstance(node.orelse[0], ast.If): node = node.orelse[0]; continue
+        if len(node.orelse) == 1 and raise_kind(node.orelse[0]): last = raise_kind(node.orelse[0]); break
+        raise Untranslatable("_parse_rfc: end of the dispatch chain")
+    chain = "\n  else ".join('if name == RRuleStr.lit "%s" then %s' % (p_, a_) for p_, a_ in arms)
+    text = ("/-- translated from `rrule.py:_rrulestr._parse_rfc`: the body of `for line in lines:` in the multi-line branch (the property / parameter\n"
+            "    split and the dispatch on RRULE / RDATE / EXRULE / EXDATE / DTSTART); the collected lists are the fields of `RRuleStr.Acc` -/\n"
+            "def rrsStepLine (po : RRuleStr.ParseOpts) (acc : RRuleStr.Acc) (line : StrPy.Str) : Py.R RRuleStr.Acc :=\n"
+            "  if line.isEmpty then .ok acc else\n"
+            "  let (name, value) : StrPy.Str × StrPy.Str :=\n"
+            "    if !line.contains %s then (RRuleStr.lit \"%s\", line)\n"
+            "    else match ICal.splitColon1 line with\n      | some (n, v) => (n, v)\n      | none => (RRuleStr.lit \"%s\", line)\n"
+            "  let parms := ICal.splitOnChar %s name\n"
+            "  if parms.isEmpty then .error .%s else\n"
+            "  let name := parms.headD []\n"
+            "  let parms := parms.drop 1\n"
+            "  %s\n  else .error .%s\n" % (lean_char(colon), dflt, dflt, lean_char(semi), exc3, chain, last))
+    return text, {"_rrulestr._parse_rfc[dispatch]": fingerprint([f])}
+
+# _rrulestr._parse_rfc: everything after the unfold block EXCEPT the dispatch loop body (the single-line fast path, the decision for a
+# set, the set building, the single-rule exit) -> Gen.rrsTail; with rrsPrefix and rrsStepLine: Gen.rrsParseRfc, the whole method.
+# A call `self._parse_rfc_rrule(v, dtstart=dtstart, [cache=cache,] ignoretz=ignoretz, tzinfos=tzinfos)` is `rrsParseRule po v` (the
+# keyword arguments; the start and the cache flag are recorded beside them), `parser.parse(datestr, ignoretz=…, tzinfos=…)` of an RDATE
+# value is kept as the text and the options (C02), `rruleset(cache=cache)` with its `rrule / rdate / exrule / exdate` calls is `Parsed.set`.
+
+def translate_tail(rfc, k):
+    def cname(n): return getattr(n, "id", None)
+    top = rfc.body[k + 1]
+    def rule_call(n, first, with_cache):
+        want = {"dtstart": "dtstart", "ignoretz": "ignoretz", "tzinfos": "tzinfos"}
+        if with_cache: want["cache"] = "cache"
+        return (isinstance(n, ast.Call) and isinstance(n.func, ast.Attribute) and n.func.attr == "_parse_rfc_rrule" and cname(n.func.value) == "self"
+                and len(n.args) == 1 and first(n.args[0]) and {kw.arg: cname(kw.value) for kw in n.keywords} == want)
+    def idx0(name): return lambda a: isinstance(a, ast.Subscript) and cname(a.value) == name and isinstance(a.slice, ast.Constant) and a.slice.value == 0
+    def is_name(name): return lambda a: cname(a) == name
+    # fast path
+    t = top.test
+    ok = (isinstance(t, ast.BoolOp) and isinstance(t.op, ast.And) and len(t.values) == 3
+          and isinstance(t.values[0], ast.UnaryOp) and isinstance(t.values[0].op, ast.Not) and cname(t.values[0].operand) == "forceset"
+          and isinstance(t.values[1], ast.Compare) and cname(t.values[1].left.func) == "len" and cname(t.values[1].left.args[0]) == "lines"
+          and isinstance(t.values[1].ops[0], ast.Eq) and t.values[1].comparators[0].value == 1
+          and isinstance(t.values[2], ast.BoolOp) and isinstance(t.values[2].op, ast.Or) and len(t.values[2].values) == 2)
+    if not ok: raise Untranslatable("_parse_rfc: fast-path test")
+    o1, o2 = t.values[2].values
+    if not (isinstance(o1, ast.Compare) and o1.left.func.attr == "find" and cname(o1.left.func.value) == "s" and isinstance(o1.ops[0], ast.Eq)
+            and isinstance(o1.comparators[0], ast.UnaryOp) and o1.comparators[0].operand.value == 1 and len(o1.left.args[0].value) == 1
+            and isinstance(o2, ast.Call) and o2.func.attr == "startswith" and cname(o2.func.value) == "s" and isinstance(o2.args[0], ast.Constant)):
+        raise Untranslatable("_parse_rfc: fast-path test (text part)")
+    if not (len(top.body) == 1 and isinstance(top.body[0], ast.Return) and rule_call(top.body[0].value, idx0("lines"), True)):
+        raise Untranslatable("_parse_rfc: fast-path return")
+    fast = "!forceset && lines.length == 1 && (!s.contains %s || RRuleStr.startsWith s (RRuleStr.lit \"%s\"))" % (lean_char(o1.left.args[0].value), o2.args[0].value)
+    els = top.orelse
+    if not (len(els) == 6 and isinstance(els[5], ast.If)): raise Untranslatable("_parse_rfc: multi-line branch")
+    dec = els[5]
+    # the decision for a set
+    def term(n):
+        if cname(n) == "forceset": return "forceset"
+        if cname(n) in ("rrulevals", "rdatevals", "exrulevals", "exdatevals"): return "!acc.%s.isEmpty" % n.id
+        if isinstance(n, ast.Compare) and cname(n.left.func) == "len" and cname(n.left.args[0]) in ("rrulevals", "rdatevals", "exrulevals", "exdatevals") \
+           and isinstance(n.ops[0], ast.Gt) and isinstance(n.comparators[0], ast.Constant):
+            return "acc.%s.length > %d" % (n.left.args[0].id, n.comparators[0].value)
+        raise Untranslatable("_parse_rfc: term of the set decision")
+    if not (isinstance(dec.test, ast.BoolOp) and isinstance(dec.test.op, ast.Or)): raise Untranslatable("_parse_rfc: set decision")
+    wants = " || ".join(term(v) for v in dec.test.values)
+    # set building
+    sb = [st for st in dec.body if not (isinstance(st, ast.If) and not st.orelse and all(isinstance(x, (ast.Import, ast.ImportFrom)) for x in st.body))]
+    def adder(st, lst, meth, argcheck):
+        return (isinstance(st, ast.For) and cname(st.target) == "value" and cname(st.iter) == lst and not st.orelse and len(st.body) == 1
+                and isinstance(st.body[0], ast.Expr) and isinstance(st.body[0].value, ast.Call) and st.body[0].value.func.attr == meth
+                and cname(st.body[0].value.func.value) == "rset" and len(st.body[0].value.args) == 1 and argcheck(st.body[0].value.args[0]))
+    okb = (len(sb) == 7 and isinstance(sb[0], ast.Assign) and cname(sb[0].targets[0]) == "rset" and cname(sb[0].value.func) == "rruleset"
+           and {kw.arg: cname(kw.value) for kw in sb[0].value.keywords} == {"cache": "cache"} and not sb[0].value.args
+           and adder(sb[1], "rrulevals", "rrule", lambda a: rule_call(a, is_name("value"), False))
+           and adder(sb[3], "exrulevals", "exrule", lambda a: rule_call(a, is_name("value"), False))
+           and adder(sb[4], "exdatevals", "exdate", is_name("value"))
+           and isinstance(sb[6], ast.Return) and cname(sb[6].value) == "rset")
+    if not okb: raise Untranslatable("_parse_rfc: set building")
+    rd = sb[2]
+    okr = (isinstance(rd, ast.For) and cname(rd.target) == "value" and cname(rd.iter) == "rdatevals" and len(rd.body) == 1 and isinstance(rd.body[0], ast.For)
+           and cname(rd.body[0].target) == "datestr" and rd.body[0].iter.func.attr == "split" and cname(rd.body[0].iter.func.value) == "value"
+           and len(rd.body[0].iter.args) == 1 and len(rd.body[0].body) == 2 and isinstance(rd.body[0].body[0], ast.Try))
+    if not okr: raise Untranslatable("_parse_rfc: RDATE loop")
+    tr_, add_ = rd.body[0].body
+    pc = tr_.body[0].value
+    if not (cname(tr_.body[0].targets[0]) == "rdate" and pc.func.attr == "parse" and cname(pc.func.value) == "parser" and [cname(a) for a in pc.args] == ["datestr"]
+            and {kw.arg: cname(kw.value) for kw in pc.keywords} == {"ignoretz": "ignoretz", "tzinfos": "tzinfos"}
+            and len(tr_.handlers) == 1 and cname(tr_.handlers[0].type) == "OverflowError" and cname(tr_.handlers[0].body[0].exc.func) == "ValueError"
+            and isinstance(add_, ast.Expr) and add_.value.func.attr == "rdate" and cname(add_.value.func.value) == "rset" and [cname(a) for a in add_.value.args] == ["rdate"]):
+        raise Untranslatable("_parse_rfc: RDATE value")
+    rsep = rd.body[0].iter.args[0].value
+    cd = sb[5]
+    if not (isinstance(cd, ast.If) and isinstance(cd.test, ast.BoolOp) and isinstance(cd.test.op, ast.And) and [cname(v) for v in cd.test.values] == ["compatible", "dtstart"]
+            and not cd.orelse and len(cd.body) == 1 and cd.body[0].value.func.attr == "rdate" and [cname(a) for a in cd.body[0].value.args] == ["dtstart"]):
+        raise Untranslatable("_parse_rfc: compatible DTSTART")
+    # single rule exit
+    se = dec.orelse
+    if not (len(se) == 2 and isinstance(se[0], ast.If) and isinstance(se[0].test, ast.UnaryOp) and cname(se[0].test.operand) == "rrulevals"
+            and isinstance(se[0].body[0], ast.Raise) and isinstance(se[1], ast.Return) and rule_call(se[1].value, idx0("rrulevals"), True)):
+        raise Untranslatable("_parse_rfc: single-rule exit")
+    exc = se[0].body[0].exc.func.id
+    text = ("/-- translated from `rrule.py:_rrulestr._parse_rfc`: everything after the unfold block — the single-line fast path, the dispatch loop\n"
+            "    (`rrsStepLine`), the decision for a set, the set building (`rruleset(cache=cache)`, its rrules / rdates / exrules / exdates, the\n"
+            "    `compatible` DTSTART), the single-rule exit.  `dtstartKw` = whether a `dtstart=` argument was passed (its truth value) -/\n"
+            "def rrsTail (po : RRuleStr.ParseOpts) (cache : Bool) (s : StrPy.Str) (lines : List StrPy.Str) (forceset compatible dtstartKw : Bool) :\n"
+            "    Py.R RRuleStr.Parsed :=\n"
+            "  if %s then\n"
+            "    (rrsParseRule po (lines.headD [])) >>= fun a => .ok (.rule a none cache)\n"
+            "  else\n"
+            "    (lines.foldlM (rrsStepLine po) {}) >>= fun acc =>\n"
+            "    if %s then\n"
+            "      (acc.rrulevals.mapM (rrsParseRule po)) >>= fun rr =>\n"
+            "      (acc.exrulevals.mapM (rrsParseRule po)) >>= fun ex =>\n"
+            "      let rdates := ((acc.rdatevals.map (ICal.splitOnChar %s)).flatten).map (fun d => (d, po))\n"
+            "      .ok (.set rr ex rdates acc.exdatevals acc.dtstart (compatible && (acc.dtstart.isSome || dtstartKw)) cache)\n"
+            "    else\n"
+            "      match acc.rrulevals with\n"
+            "      | v :: _ => (rrsParseRule po v) >>= fun a => .ok (.rule a acc.dtstart cache)\n"
+            "      | [] => .error .%s\n\n"
+            "/-- `_rrulestr._parse_rfc` (WHOLE method): the translated prefix followed by the translated rest -/\n"
+            "def rrsParseRfc (s0 : StrPy.Str) (o : RRuleStr.Opts) (dtstartKw : Bool) : Py.R RRuleStr.Parsed :=\n"
+            "  (rrsPrefix s0 o.unfold o.forceset o.compatible) >>= fun (forceset, unfold, TZID_NAMES, s, lines) =>\n"
+            "  rrsTail o.po o.cache s lines forceset o.compatible dtstartKw\n" % (fast, wants, lean_char(rsep), exc))
+    return text, {"_rrulestr._parse_rfc": fingerprint([rfc])}
 
 def translate_all(src):
     loc = locate(src)
@@ -478,6 +1296,54 @@ def translate_all(src):
                "    strings; `date_tzinfo` = the zone `parser.parse` gave the date (none = naive), result = the zone of the date appended -/\n"
                "def rrsAttach (TZID date_tzinfo : Option StrPy.Zone) : Py.R (Option StrPy.Zone) :=\n%s\n" % indent(body))
     fps["_rrulestr._parse_date_value[attach]"] = fingerprint(loc["attach"])
+    # 4. the whole of _parse_date_value: [parms] ; for datestr in date_value.split(','): parse (OverflowError -> ValueError) ; [attach] ; append ; return
+    pdv = loc["pdv"]
+    def cname(n): return getattr(n, "id", None)
+    rest = pdv.body[len(loc["parms"]):]
+    if not (len(rest) == 2 and isinstance(rest[0], ast.For) and isinstance(rest[1], ast.Return) and cname(rest[1].value) == "datevals"):
+        raise Untranslatable("_parse_date_value: statements after the parameter loop")
+    f2 = rest[0]
+    if not (cname(f2.target) == "datestr" and isinstance(f2.iter, ast.Call) and f2.iter.func.attr == "split" and cname(f2.iter.func.value) == "date_value"
+            and len(f2.iter.args) == 1 and len(f2.iter.args[0].value) == 1 and not f2.orelse and len(f2.body) == 3
+            and isinstance(f2.body[0], ast.Try) and f2.body[1] is loc["attach"][0]):
+        raise Untranslatable("_parse_date_value: loop over the date strings")
+    tr_, ap_ = f2.body[0], f2.body[2]
+    pc = tr_.body[0].value if len(tr_.body) == 1 and isinstance(tr_.body[0], ast.Assign) and cname(tr_.body[0].targets[0]) == "date" else None
+    if not (isinstance(pc, ast.Call) and isinstance(pc.func, ast.Attribute) and pc.func.attr == "parse" and cname(pc.func.value) == "parser"
+            and [cname(a) for a in pc.args] == ["datestr"] and {k.arg: cname(k.value) for k in pc.keywords} == {"ignoretz": "ignoretz", "tzinfos": "tzinfos"}
+            and len(tr_.handlers) == 1 and cname(tr_.handlers[0].type) == "OverflowError" and len(tr_.handlers[0].body) == 1
+            and isinstance(tr_.handlers[0].body[0], ast.Raise) and cname(tr_.handlers[0].body[0].exc.func) == "ValueError" and not tr_.orelse and not tr_.finalbody
+            and isinstance(ap_, ast.Expr) and isinstance(ap_.value, ast.Call) and ap_.value.func.attr == "append" and cname(ap_.value.func.value) == "datevals"
+            and [cname(a) for a in ap_.value.args] == ["date"]
+            and any(isinstance(st, ast.Assign) and cname(st.targets[0]) == "datevals" and isinstance(st.value, ast.List) and not st.value.elts for st in loc["parms"])):
+        raise Untranslatable("_parse_date_value: body of the loop over the date strings")
+    out.append("/-- translated from `rrule.py:_rrulestr._parse_date_value` (WHOLE method): the parameter loop (`rrsDateParms`), then for every `datestr` of\n"
+               "    `date_value.split('%s')`: `parser.parse(datestr, ignoretz=ignoretz, tzinfos=tzinfos)` (the function `parse`, given: C02; an\n"
+               "    OverflowError becomes ValueError), the zone attach statement (`rrsAttach`), `datevals.append(date)`; returns `datevals`.\n"
+               "    A date is the pair (what `parse` returned, its zone). -/\n"
+               "def rrsParseDateValue {D : Type} (parse : StrPy.Str → Py.R (D × Option StrPy.Zone)) (date_value : StrPy.Str) (parms : List StrPy.Str)\n"
+               "    (rule_tzids : StrPy.Dict) (tzids : StrPy.TzidsKind) : Py.R (List (D × Option StrPy.Zone)) :=\n"
+               "  (rrsDateParms parms rule_tzids tzids) >>= fun (TZID, value_found) =>\n"
+               "  (ICal.splitOnChar %s date_value).mapM (fun datestr =>\n"
+               "    (match parse datestr with | .error .OverflowError => .error .ValueError | r => r) >>= fun date =>\n"
+               "    (rrsAttach TZID date.2) >>= fun tzinfo =>\n"
+               "    .ok (date.1, tzinfo))\n" % (f2.iter.args[0].value, lean_char(f2.iter.args[0].value)))
+    fps["_rrulestr._parse_date_value"] = fingerprint([pdv])
+    fps.pop("_rrulestr._parse_date_value[parms]", None); fps.pop("_rrulestr._parse_date_value[attach]", None)    # the whole method now
+    rfc_tree = ast.parse(open(os.path.join(src, "rrule.py")).read())
+    rfc = find_function(rfc_tree, "_rrulestr._parse_rfc")
+    kk = next(i for i, st in enumerate(rfc.body) if isinstance(st, ast.If) and isinstance(st.test, ast.Name) and st.test.id == "unfold")
+    text, fp = translate_dispatch(rfc, kk)
+    out.append(text); fps.update(fp)
+    text, fp = translate_rrule_str(src)
+    out.append(text); fps.update(fp)
+    text, fp = translate_rule_parser(src)
+    # __call__ refers to rrsParseRfc: emit the tail of _parse_rfc before it
+    ttext, tfp = translate_tail(rfc, kk)
+    cut = text.index("/-- translated from `_rrulestr.__call__`")
+    text = text[:cut] + ttext + "\n" + text[cut:]
+    out.append(text); fps.update(fp); fps.update(tfp)
+    fps.pop("_rrulestr._parse_rfc[prefix]", None); fps.pop("_rrulestr._parse_rfc[dispatch]", None)      # the whole method now
     return "\n".join(out), fps
 
 if __name__ == "__main__":
